@@ -227,6 +227,7 @@ package connect
 //@   tags C02, C06, C10, C15
 //@   ensures fresh(res) && res.code == c && asErr(res) == res && dtypeIs(res, "*Error")            // label: coded
 //@   ensures forall t ref :: {Is(res, t)} !fresh(t) ==> (Is(res, t) <==> Is(fmtw(template, args), t))   // label: wraps-the-%w-operand
+//@   ensures res.err != nil && asErr(res.err) == asErr(fmtw(template, args)) && (forall t ref :: {Is(res.err, t)} !fresh(t) ==> (Is(res.err, t) <==> Is(fmtw(template, args), t)))   // label: the-underlying-error-wraps-the-%w-operand
 
 // ---------------------------------------------------------------------------
 // handler-side timeouts (protocol_grpc.go, protocol_connect.go)
@@ -336,6 +337,7 @@ package connect
 //@   ensures res != nil ==> !Is(res, errSpecialEnvelope)                                                       // label: never-the-end-of-stream-sentinel   // tags: C04
 //@   ensures res != nil && res != asErr(termerr(r.reader)) ==> res.code != 0                                   // label: own-errors-have-nonzero-code   // tags: C06
 //@   ensures res != nil && coded(termerr(r.reader)) && |old(rest(r.reader))| < 5 + (if |old(rest(r.reader))| >= 5 then declared(old(rest(r.reader))) else 0) && !(|old(rest(r.reader))| >= 5 && r.readMaxBytes > 0 && declared(old(rest(r.reader))) > r.readMaxBytes) && !Is(termerr(r.reader), io.EOF) ==> res == asErr(termerr(r.reader))   // label: coded-transport-error-passes-through   // tags: C15
+//@   ensures let S := old(rest(r.reader)) in res != nil && coded(termerr(r.reader)) && !Is(termerr(r.reader), io.EOF) && |S| >= 5 && r.readMaxBytes > 0 && declared(S) > r.readMaxBytes && |S| < 5 + declared(S) ==> res == asErr(termerr(r.reader))   // label: coded-transport-error-passes-through-the-discard-of-an-oversized-message   // tags: C15
 //@   assert@call((*bytes.Buffer).Grow#1): r.readMaxBytes <= 0 || size <= r.readMaxBytes                        // label: buffer-growth-within-limit   // tags: C09
 //@   loop remaining:
 //@     invariant 0 <= remaining && remaining <= size && size == declared(old(rest(r.reader))) && |old(rest(r.reader))| >= 5
@@ -796,8 +798,8 @@ package connect
 //@     decreases |o.options| - rangeindex
 
 //@ func WithCodec(codec) res
-//@   tags C16
-//@   ensures fresh(res) && typeis(res, "*codecOption")
+//@   tags C16, C05, C12
+//@   ensures fresh(res) && typeis(res, "*codecOption") && cast(res, "*codecOption").Codec == codec   // label: carries-the-given-codec
 //@ func withProtoBinaryCodec() res
 //@   tags C16
 //@   ensures res != nil && decl(res) == []
@@ -1281,7 +1283,7 @@ package connect
 //@   assigns target(message), mval(message)
 //@   doc: "a decoder (Codec.Unmarshal, json.Unmarshal): it writes to its target and to objects it allocates, nothing else"
 //@ func (*connectUnaryUnmarshaler).UnmarshalFunc(u, message, unmarshal) res
-//@   tags C09, C06, C07, C11
+//@   tags C09, C06, C07, C11, C15
 //@   requires u != nil && message != u && u.bufferPool != nil && u.reader != nil && !pooled(u.reader) && !typeis(u.reader, "*bytes.Buffer") && !typeis(u.reader, "*io.LimitedReader") && unmarshal != nil && u.readMaxBytes >= 0
 //@   nosafety overflow
 //@   assigns u.alreadyRead, rest(u.reader), mval(message), target(message)
@@ -1289,10 +1291,13 @@ package connect
 //@   ensures !old(u.alreadyRead) && u.readMaxBytes > 0 && u.readMaxBytes < 9223372036854775807 && |old(rest(u.reader))| > u.readMaxBytes ==> res != nil && (old(termerr(u.reader)) == io.EOF ==> res.code == 3)   // label: body-over-the-limit-is-rejected   // tags: C09
 //@   ensures !old(u.alreadyRead) && old(termerr(u.reader)) == io.EOF && (u.readMaxBytes == 0 || |old(rest(u.reader))| <= u.readMaxBytes) ==> called("(*connectUnaryUnmarshaler).UnmarshalFunc.unmarshal", 1) || called("(*compressionPool).Decompress", 1)   // label: body-within-the-limit-reaches-the-decoder   // tags: C09
 //@   ensures !old(u.alreadyRead) && res == nil && u.readMaxBytes > 0 ==> |old(rest(u.reader))| <= u.readMaxBytes && old(termerr(u.reader)) == io.EOF   // label: accepted-body-is-within-the-limit-and-complete   // tags: C09, C04
+//@   ensures !old(u.alreadyRead) && coded(termerr(u.reader)) && !Is(termerr(u.reader), io.EOF) ==> res == asErr(termerr(u.reader))   // label: coded-transport-error-passes-through-also-while-draining-an-oversized-body   // tags: C15
+//@   ensures !old(u.alreadyRead) && !coded(termerr(u.reader)) && Is(termerr(u.reader), context.Canceled) && (u.readMaxBytes == 0 || |old(rest(u.reader))| <= u.readMaxBytes) ==> res != nil && codeOf(res) == 1   // label: a-read-cut-short-by-cancellation-is-canceled   // tags: C15
+//@   ensures !old(u.alreadyRead) && !coded(termerr(u.reader)) && !Is(termerr(u.reader), context.Canceled) && Is(termerr(u.reader), context.DeadlineExceeded) && (u.readMaxBytes == 0 || |old(rest(u.reader))| <= u.readMaxBytes) ==> res != nil && codeOf(res) == 4   // label: a-read-cut-short-by-expiry-is-deadline-exceeded   // tags: C15
 
 //@ constfield connectUnaryClientConn.responseHeader, connectUnaryClientConn.responseTrailer, connectUnaryClientConn.compressionPools, connectUnaryClientConn.bufferPool, connectUnaryClientConn.duplexCall
 //@ func (*connectUnaryClientConn).validateResponse(cc, response) res
-//@   tags C05, C06, C08, C09, C11
+//@   tags C05, C06, C08, C09, C11, C15
 //@   requires cc != nil && response != nil && cc.responseHeader != nil && cc.responseTrailer != nil && cc.compressionPools != nil
 //@   requires cc.responseHeader != response.Header && cc.responseTrailer != response.Header && cc.responseHeader != cc.responseTrailer
 //@   requires response.Body != nil && !pooled(response.Body) && !typeis(response.Body, "*bytes.Buffer") && !typeis(response.Body, "*io.LimitedReader") && cc.bufferPool != nil
@@ -1300,6 +1305,8 @@ package connect
 //@   assigns everything
 //@   ensures res != nil ==> asErr(res) == res && res.code != 0                                          // label: never-the-zero-code
 //@   ensures old(response.StatusCode) != 200 ==> res != nil                                             // label: non-200-is-an-error
+//@   ensures old(response.StatusCode) != 200 && called("(*connectUnaryUnmarshaler).UnmarshalFunc", 1) && !coded(termerr(response.Body)) && Is(termerr(response.Body), context.Canceled) ==> codeOf(res) == 1   // label: cancellation-while-reading-the-error-body-is-canceled   // tags: C15
+//@   ensures old(response.StatusCode) != 200 && called("(*connectUnaryUnmarshaler).UnmarshalFunc", 1) && !coded(termerr(response.Body)) && !Is(termerr(response.Body), context.Canceled) && Is(termerr(response.Body), context.DeadlineExceeded) ==> codeOf(res) == 4   // label: expiry-while-reading-the-error-body-is-deadline-exceeded   // tags: C15
 //@   ensures old(response.StatusCode) != 200 && called("NewError", 1) ==> res.code == callres("connectHTTPToCode", 2)   // label: without-a-valid-wire-error-the-code-comes-from-the-http-status
 //@   assert@call(readOnlyCompressionPools.Get#1): arg1 == hget(response.Header, "Content-Encoding")   // label: decoder-chosen-from-the-content-encoding-header   // tags: C05, C08
 //@   assert@call((*connectUnaryUnmarshaler).UnmarshalFunc#1): arg0.reader == response.Body && arg0.bufferPool == cc.bufferPool && arg0.compressionPool == callres("readOnlyCompressionPools.Get", 1) && arg0.readMaxBytes == 0 && !arg0.alreadyRead   // label: error-body-is-read-with-the-response's-encoding   // tags: C05, C06, C08
@@ -1961,12 +1968,40 @@ package connect
 //@ trusted func protocol.NewHandler(p, params) res
 //@   assigns nothing
 //@   ensures res != nil
-//@ trusted func newReadOnlyCodecs(nameToCodec) res
+//@ func newReadOnlyCodecs(nameToCodec) res
+//@   tags C12, C05
+//@   ensures fresh(res) && typeis(res, "*codecMap") && cast(res, "*codecMap").nameToCodec == nameToCodec   // label: a-view-of-the-configured-codecs
+// drev(R, i): the names of R[i:], last first, each once -- the preference
+// order the handler and client advertise (last registered is most preferred).
+//@ spec drev(R strlist, i int) strlist
+//@ axiom drev_end: forall R strlist, i int :: {drev(R, i)} i >= len(R) ==> drev(R, i) == []
+//@ spec unfoldDrev(R strlist, i int) bool = true
+//@ axiom drev_step: forall R strlist, i int :: {unfoldDrev(R, i)} 0 <= i && i < len(R) ==> drev(R, i) == (if lmem(drev(R, i+1), R[i]) then drev(R, i+1) else drev(R, i+1) ++ [R[i]])
+//@ spec joined(l strlist, sep seq) seq
+//@ trusted func strings.Join(elems, sep) res
 //@   assigns nothing
-//@   ensures res != nil
-//@ trusted func newReadOnlyCompressionPools(nameToPool, reversedNames) res
-//@   assigns nothing
-//@   ensures res != nil
+//@   ensures res == joined(elems, sep)
+//@   doc: "Join concatenates the elements of its first argument to create a single string. The separator string sep is placed between elements in the resulting string."
+//@ lemma lmem_append(l strlist, y seq, x seq): lmem(l ++ [y], x) <==> (lmem(l, x) || x == y)
+//@   tags C08
+//@   hint (l ++ [y])[len(l)] == y
+//@   trigger lmem(l ++ [y], x)
+//@ func newReadOnlyCompressionPools(nameToPool, reversedNames) res
+//@   tags C08
+//@   ensures fresh(res) && typeis(res, "*namedCompressionPools") && cast(res, "*namedCompressionPools").nameToPool == nameToPool   // label: a-view-of-the-configured-pools
+//@   ensures cast(res, "*namedCompressionPools").commaSeparatedNames == joined(drev(reversedNames, 0), ",")   // label: advertises-every-registered-name-once-last-registered-first
+//@   use lmem_append
+//@   loop 1:
+//@     invariant 0 - 1 <= i && i < len(reversedNames)
+//@     invariant names == drev(reversedNames, i + 1) && unfoldDrev(reversedNames, i)
+//@     invariant forall x seq :: {mapdom(seen, x)} mapdom(seen, x) <==> lmem(names, x)
+//@     assigns mapof(seen), mapvals(seen)
+//@     decreases i + 1
+//@ lemma drev_covers(R strlist, i int, j int): 0 <= i && i <= j && j < len(R) ==> lmem(drev(R, i), R[j])
+//@   tags C08
+//@   use lmem_append()
+//@   hint unfoldDrev(R, i - 1)
+//@   by induction on i from 0 to len(R) down
 //@ func (*handlerConfig).newProtocolHandlers(c, streamType) res
 //@   tags C09, C08, C12
 //@   requires c != nil
@@ -2741,3 +2776,50 @@ package connect
 //@   requires hc != nil
 //@   assigns nothing
 //@   ensures res.Procedure == hc.spec.Procedure && res.StreamType == hc.spec.StreamType && res.IsClient == hc.spec.IsClient
+
+// ---------------------------------------------------------------------------
+// batch 7: constructors and small helpers
+// ---------------------------------------------------------------------------
+
+//@ func isCommaOrSpace(c) res
+//@   tags C08
+//@   assigns nothing
+//@   ensures res == (c == 44 || c == 32)                          // label: separators-are-comma-and-space
+//@ func NewRequest(message) res
+//@   tags C01, C11
+//@   ensures fresh(res) && res.Msg == message && res.header == nil   // label: wraps-the-message-with-no-headers-yet
+//@ func NewResponse(message) res
+//@   tags C01, C11
+//@   ensures fresh(res) && res.Msg == message && res.header == nil && res.trailer == nil   // label: wraps-the-message-with-no-headers-or-trailers-yet
+//@ func WithProtoJSON() res
+//@   tags C05, C12
+//@   ensures fresh(res) && typeis(res, "*codecOption") && typeis(cast(res, "*codecOption").Codec, "*protoJSONCodec")   // label: selects-the-JSON-codec
+//@ func WithCompression(name, newDecompressor, newCompressor) res
+//@   tags C08
+//@   ensures fresh(res) && typeis(res, "*compressionOption") && cast(res, "*compressionOption").Name == name && cast(res, "*compressionOption").CompressionPool != nil   // label: registers-under-the-given-name
+//@ func WithAcceptCompression(name, newDecompressor, newCompressor) res
+//@   tags C08
+//@   ensures fresh(res) && typeis(res, "*compressionOption") && cast(res, "*compressionOption").Name == name && cast(res, "*compressionOption").CompressionPool != nil   // label: registers-under-the-given-name
+//@ func newBufferPool() res
+//@   tags C01
+//@   ensures fresh(res)
+
+//@ func (*codecMap).Names(m) res
+//@   tags C12
+//@   requires m != nil
+//@   assigns nothing
+//@   ensures forall x seq :: {lmem(res, x)} {mapdom(m.nameToCodec, x)} lmem(res, x) <==> mapdom(m.nameToCodec, x)   // label: exactly-the-registered-codec-names
+//@   use lmem_append
+//@   loop 1:
+//@     invariant forall x seq :: {lmem(names, x)} {iterated(x)} lmem(names, x) <==> iterated(x)
+//@     invariant forall x seq :: {iterated(x)} iterated(x) ==> mapdom(m.nameToCodec, x)
+
+// recover.go: the outer functions only build the closures contracted above
+//@ func (*recoverHandlerInterceptor).WrapUnary(i, next) res
+//@   tags C19
+//@   assigns nothing
+//@   ensures res != nil   // label: returns-a-function
+//@ func (*recoverHandlerInterceptor).WrapStreamingHandler(i, next) res
+//@   tags C19
+//@   assigns nothing
+//@   ensures res != nil   // label: returns-a-function
